@@ -308,6 +308,19 @@ def pat_names(p):
     return out
 
 
+def _node_count(n, limit):
+    c = 0
+    st = [n]
+    while st and c < limit:
+        x = st.pop()
+        if isinstance(x, dict):
+            c += 1
+            st.extend(v for v in x.values() if isinstance(v, (dict, list)))
+        elif isinstance(x, list):
+            st.extend(x)
+    return c
+
+
 class Sym:
     """Normal form builder."""
 
@@ -355,6 +368,10 @@ class Sym:
                         r_ = resolve_consts(("const", to["path"]), self.facts)
                         if r_[0] in ("lit", "arr"):
                             return r_
+                        # ... or its initialiser as written, when the value holds references (a table of tables)
+                        c_ = self.facts.consts.get(to["path"])
+                        if c_ and c_.get("hir") and "&" in str(c_.get("ty")) and d < self.depth and _node_count(c_["hir"]["body"], 400) < 400:
+                            return s(c_["hir"]["body"])
                     return ("const", to["path"])
                 return ("def", to["path"])
             return ("path", str(to))
@@ -754,8 +771,8 @@ def _ckey(t):
 
 def subst(t, m):
     """Replace sub-terms according to dict m."""
-    if not isinstance(t, tuple):
-        return t
+    if not isinstance(t, tuple) or isinstance(t, PK):
+        return t          # a pattern key binds names, it mentions none
     if t in m:
         return m[t]
     return tuple(subst(x, m) if isinstance(x, tuple) else x for x in t)
@@ -772,6 +789,24 @@ def match_table(m, sym=None, facts=None):
 
 class Unsupported(Exception):
     pass
+
+
+def _pat_binds(p):
+    out = []
+    if not isinstance(p, dict):
+        return out
+    if p.get("k") == "PBind":
+        out.append((p["name"], p["id"]))
+        if p.get("sub"):
+            out += _pat_binds(p["sub"])
+    for key in ("pats", "before", "after"):
+        for s_ in p.get(key) or ():
+            out += _pat_binds(s_)
+    for f in p.get("fields") or ():
+        out += _pat_binds(f["pat"])
+    if isinstance(p.get("pat"), dict):
+        out += _pat_binds(p["pat"])
+    return out
 
 
 class Exec(Sym):
@@ -929,7 +964,11 @@ class Exec(Sym):
             if st.get("init") is None:
                 return
             if st.get("els"):
-                raise Unsupported("let-else")
+                if not self.tolerant:
+                    raise Unsupported("let-else")
+                # tolerant summaries follow the path on which the pattern matched: its names are projections of the value
+                self.bind_pat_fields(pat, self.value(st["init"], d))
+                return
             v = self.value(st["init"], d)
             self.bind(pat, v)
             return
@@ -1052,6 +1091,20 @@ class Exec(Sym):
             pass
         elif k == "PRef":
             self.bind(pat["pat"], v)
+        elif k == "PStruct" and v and v[0] == "struct":
+            fv = dict(v[2])
+            for f_ in pat["fields"]:
+                if f_["name"] in fv:
+                    self.bind(f_["pat"], fv[f_["name"]])
+                elif self.tolerant:
+                    for nm, lid in _pat_binds(f_["pat"]):
+                        self.store[lid] = ("var", nm)
+                else:
+                    raise Unsupported("struct pattern field without a value")
+        elif k in ("PStruct", "PTupleStruct", "PTuple") and self.tolerant:
+            # destructuring of a value the summary does not look into (e.g. what an option parser returned): the names are inputs
+            for nm, lid in _pat_binds(pat):
+                self.store[lid] = ("var", nm)
         else:
             raise Unsupported("pattern " + k)
 
@@ -1348,7 +1401,7 @@ def fold(t, assume, discr=None, helpers=None, evalcalls=None):
             return ("neg", a)
         if h == "let" and len(t) >= 3:
             sc = f(t[2])
-            if sc[0] in ("variant", "lit", "struct", "ctor", "pos"):
+            if sc[0] in ("variant", "lit", "struct", "ctor", "pos") or _decided_tuple(sc):
                 return ("lit", _pat_matches(t[1], sc))
             return ("let", t[1], sc) + tuple(t[3:])
         if h == "if":
@@ -1360,7 +1413,7 @@ def fold(t, assume, discr=None, helpers=None, evalcalls=None):
             return ("if", c, f(t[2]), f(t[3]))
         if h == "match":
             sc = f(t[1])
-            if sc[0] in ("variant", "lit", "struct", "ctor", "pos"):
+            if sc[0] in ("variant", "lit", "struct", "ctor", "pos") or _decided_tuple(sc):
                 key = sc[1] if sc[0] != "struct" else sc[1]
                 arms_ = list(t[2])
                 for i_, (pk_, g, body) in enumerate(arms_):
@@ -1409,6 +1462,10 @@ def fold(t, assume, discr=None, helpers=None, evalcalls=None):
                         return f(("call", clo[1], tuple(xs)))
                     return None
                 a0 = args[0]
+                if a0[0] == "arr" and len(args) == 2 and t[1].endswith("]>::map") and "array" in t[1]:
+                    r_ = [app_(args[1], e) for e in a0[1:]]       # [a, b].map(f) = [f(a), f(b)]
+                    if None not in r_:
+                        return ("arr",) + tuple(r_)
                 if t[1].endswith(ITER_SRC) and len(args) == 1 and a0[0] == "arr":
                     return ("iter",) + tuple(a0[1:])
                 if a0[0] == "iter" and "Iterator" in t[1]:
@@ -1613,6 +1670,12 @@ def _find_ret(t):
     return None
 
 
+def _decided_tuple(sc):
+    """a tuple scrutinee whose every component is a value a pattern can be decided against"""
+    return isinstance(sc, tuple) and sc[:1] == ("tup",) and len(sc) > 1 and \
+        all(isinstance(x, tuple) and (x[0] in ("variant", "lit", "struct", "ctor", "pos") or _decided_tuple(x)) for x in sc[1:])
+
+
 def _pat_matches(pk_, sc):
     if pk_ == "_":
         return True
@@ -1625,6 +1688,8 @@ def _pat_matches(pk_, sc):
             return pk_[1] == sc[1]
         if pk_[0] == "pos" and sc[0] == "pos":
             return tuple(pk_) == tuple(sc)
+        if pk_[0] == "tup" and sc[0] == "tup" and len(pk_) == len(sc):
+            return all(_pat_matches(p, x) for p, x in zip(pk_[1:], sc[1:]))
         if pk_[0] == "range" and sc[0] == "lit":
             lo, hi, end = pk_[1], pk_[2], pk_[3]
             try:
